@@ -69,6 +69,13 @@ def kani_unit(prop, unit, tier, seed, workdir):
         else:
             discharged += r_["total"] - (r_["failed"] or 1)
             fc = r_["failed_checks"]
+            rel = unit.get("relevant")
+            if rel and fc and not any(any(k in c[0] for k in rel) for c in fc):
+                import sys
+                print("NOTE property=%s: failed check(s) of %s (%s) are outside this property" % (prop, h, "; ".join(c[0] for c in fc)), file=sys.stderr)
+                continue
+            if rel:
+                fc = [c for c in fc if any(k in c[0] for k in rel)] or fc
             msg = "; ".join("%s (%s:%s)" % (c[0], c[1], c[2]) for c in fc) or "assertion failed"
             kind = fc[0][0].strip().replace(" ", "_") if fc else "assertion_failed"
             failures.append({"id": "kani:%s#%s" % (info.get("group", h), kind), "message": "%s: %s" % (info["obligation"], msg),
